@@ -158,6 +158,34 @@ class CountingRows(iteration.MaterializedRowIterable):
             raise InjectedFault(f"closing {self.name}")
 
 
+class CountingMapping(iteration.RowMapping):
+    """A `RowMapping` leaf payload (rows keyed on a tuple of key columns) whose iterations are
+    counted like those of `CountingRows`.  A deduplication whose key is the mapping's own key is
+    documented to return the payload itself."""
+
+    def __init__(self, unique_key, rows, name, log):
+        super().__init__(unique_key, rows)
+        self.name = name
+        self.log = log
+        self.starts = 0
+        self.pulls = 0
+        self.fail_at = None
+        self.faults = 0
+
+    def __iter__(self):
+        self.starts += 1
+        self.log.append(("start", self.name))
+        for i, r in enumerate(self.rows.values()):
+            if self.fail_at is not None and i >= self.fail_at:
+                self.faults += 1
+                raise InjectedFault(f"reading row {i} of {self.name}")
+            self.pulls += 1
+            yield r
+        if self.fail_at is not None:
+            self.faults += 1
+            raise InjectedFault(f"closing {self.name}")
+
+
 class FaultyProcessor(VProcessor):
     """A Processor whose ``fail_at``-th hook call fails before doing anything."""
 
@@ -280,7 +308,10 @@ class Builder:
                 payload = self.db.make_table(name, tags, ins)
             self.leaf_payloads[key_name] = payload
             return eng.make_leaf(set(tags), payload, name=name, min_rows=mn, max_rows=mx)
-        if self.counting:
+        if self.counting and spec.get("mapping_key") and self.counting == "with_mappings":
+            key = tuple(T(c) for c in spec["mapping_key"])
+            payload = CountingMapping(key, {tuple(r[k] for k in key): r for r in rows}, name, self.access_log)
+        elif self.counting:
             payload = CountingRows(rows, name, self.access_log)
         elif spec.get("mapping_key"):
             key = tuple(T(c) for c in spec["mapping_key"])
